@@ -44,6 +44,10 @@ Definition chk_C07 (c o : value) : bool :=
       | Some fs, Some (st, cl, cr, body) =>
           let root := root_of_spec rootspec in
           (if inside_root root path then true else (st =? 404)) &&
+          (* a 200 that is no directory listing carries the content of some file below the (lexical) root - whatever name led to it *)
+          (if (st =? 200) && negb (is_prefix (B "<!DOCTYPE html>") body)
+           then existsb (fun e : fentry => negb (fe_dir e) && seg_prefix (lexical (abs_segs root)) (fe_path e) && beq (fe_content e) body) fs
+           else true) &&
           (if plain_relative path then
              let p := lexical (abs_segs root ++ segs path) in
              match fs_file fs p with
